@@ -32,7 +32,10 @@ CLAIMS = {
              "C02_postfix_anchored); the greedy matcher's indices are a valid witness (companion file C02_Greedy, C02_greedy_entry: code-point haystacks with any needle, ASCII "
              "haystacks with a normalized needle; calculate_score yields a witness exactly on a tight window - the rest of the needle is a subsequence of the window but not of the "
              "window without its last character - the forward scans of the prefilter / of fuzzy_match_greedy_ stop at the first completion and the backward scan keeps the window "
-             "tight wherever it moves the start); failed matches carry no indices. The substring scan's window and the equality of the real back-pointer "
+             "tight wherever it moves the start); at the fuzzy_indices entry point (companion file C02_Fuzzy) every path reports a valid witness: "
+             "C02_fuzzy_entry_ascii / _unicode for needles of two or more characters (the contiguous shortcut, the matrix, and the greedy fallback when the scratch layout does not "
+             "fit; normalized needle, prefix preference off) and C02_fuzzy_entry_ascii_one / _unicode_one for one-character needles (the reported index is an occurrence); "
+             "failed matches carry no indices. The substring scan's window and the equality of the real back-pointer "
              "matrix with the recurrence are checked on the implementation's output for every case (prior vector content random, must be untouched)."),
     "C03": dict(
         technique="Lean 4 theorems (constants = documented literals, bonus table, calculate_score loop and the optimal recurrence = scheme on the reported alignment) + scheme oracle on the implementation's alignment",
